@@ -85,6 +85,7 @@ class Execution:
         self._sched = None
         self.backend = ModelBackend(self.clock, timer_lag=self.sc.get("timer_lag", 0.0))
         self.backend.resp_page = self.sc.get("resp_page")
+        self.backend.fail_get_state_at = self.sc.get("get_state_fault")     # n: the n-th page fetch (GetDurableExecutionState) fails
         for k, v in (self.sc.get("faults") or {}).items():
             self.backend.fail_at[int(k)] = v
         for k in self.sc.get("faults_after_apply") or []:
@@ -126,6 +127,10 @@ class Execution:
             s.progress()
             s.log("ApiReturn", n=info["n"], ok=info["ok"], err=info["err"], inv=self.rec.inv,
                   changed=[c[:8] for c in info.get("changed", [])])
+        elif kind == "GetStateFail":
+            s.progress()
+            s.log("GetStateFail", n=info["n"], inv=self.rec.inv)
+            return
         # scheduling point so that a crash can separate "applied" from "response received"; the API call may also take
         # (virtual) time, so that other threads can enqueue while it is in flight
         sch, me = ds.current()
